@@ -57,6 +57,10 @@ pub const MENU: &[GroupDef] = &[
     GroupDef { body: "?:[a-c\\-_]{1,}", yes: &["a-b_", "c"], no: &["d", ""] },
     GroupDef { body: "?:.{2}", yes: &["ab", "🤘/"], no: &["a", "abc"] },
     GroupDef { body: "?:(a+)(b?)", yes: &["aab", "a"], no: &["b"] },
+    GroupDef { body: "?:[а-я]+", yes: &["жук", "я"], no: &["zhuk", ""] },
+    GroupDef { body: "?:é+", yes: &["é", "éé"], no: &["e", ""] },
+    GroupDef { body: "?:[a-zß-ÿ]+", yes: &["straße", "é", "ks"], no: &["", "٤"] },
+    GroupDef { body: "?:σ|ж", yes: &["σ", "ж"], no: &["s", ""] },
 ];
 
 /// Groups with an unescaped parenthesis inside a character class (DESIGN §6-O1): valid regexes that the
@@ -70,6 +74,8 @@ pub const CP_MENU: &[GroupDef] = &[
 const LITS: &[char] = &[
     '/', '/', '/', 'a', 'a', 'b', 'c', 'A', 'B', 'z', '.', '-', '_', '%', '(', ')', '\\', '\\', '[', ']', '+', '*', '?', '{', '}', '|', '^', '$', '#',
     '&', '~', '日', '🤘', '€', ' ', '1', '=',
+    // cased non-ASCII letters (simple case folding is modelled for these: Model/Regex.lean `caseOrbit`), 2/3-byte
+    'é', 'É', 'ü', 'Ü', 'ж', 'Ж', 'σ', 'Σ', 'ς', 'ß', 'ẞ', '\u{212A}', 'ſ', 'İ', 'ǅ', 'k', 's', '٤',
 ];
 
 #[derive(Clone, Debug, PartialEq)]
@@ -147,9 +153,11 @@ pub fn instantiate(p: &Pat, rng: &mut Prng, near: bool) -> String {
     }
     if near {
         let cs: Vec<char> = s.chars().collect();
-        match rng.below(8) {
+        match rng.below(10) {
             6 => s = s.to_ascii_uppercase(),
             7 => s = s.to_ascii_lowercase(),
+            8 => s = s.to_uppercase(),
+            9 => s = s.to_lowercase(),
             0 if !cs.is_empty() => s = cs[..cs.len() - 1].iter().collect(),
             1 => s.push('x'),
             2 if !cs.is_empty() => {
@@ -271,7 +279,13 @@ pub fn pattern_pool(rng: &mut Prng, class_paren: bool) -> Vec<Pat> {
                 // case variant of a literal
                 let k = rng.below(p.len());
                 if let Tok::L(s) = &p[k] {
-                    p[k] = Tok::L(s.chars().map(|c| if c.is_ascii_lowercase() { c.to_ascii_uppercase() } else { c.to_ascii_lowercase() }).collect());
+                    p[k] = Tok::L(if rng.chance(1, 2) {
+                        s.chars().map(|c| if c.is_ascii_lowercase() { c.to_ascii_uppercase() } else { c.to_ascii_lowercase() }).collect()
+                    } else if rng.chance(1, 2) {
+                        s.to_uppercase()
+                    } else {
+                        s.to_lowercase()
+                    });
                 }
             }
         }
